@@ -32,7 +32,10 @@ CONSTANTS W,                  \* bits per storage word
           Dyn,                \* TRUE: dynamic storage (Bvd), FALSE: fixed array (Bvf)
           MaskAfterBitop,     \* FALSE = before "fix: bitwise |= ^= &= left bits ... beyond the length"
           BoundByUsedWords,   \* FALSE = before "fix: Bvd += / -= &Bvf wrote into spare capacity words"
-          ReadMasksWordOfLen  \* FALSE = before "fix: Bvf::read kept the surplus bits ..."
+          ReadMasksWordOfLen, \* FALSE = before "fix: Bvf::read kept the surplus bits ..."
+          PopClears,          \* FALSE = pop() leaves the popped bit in storage (a seeded change)
+          ShlInMasks,         \* FALSE = shl_in() does not mask the partial last word (a seeded change)
+          CopyRangeMasks      \* FALSE = copy_range() does not mask the word holding the last bit (a seeded change)
 
 VARIABLE s                    \* [len, raw]
 
@@ -74,7 +77,7 @@ SResize(v, n, b) ==
   ELSE v
 
 Push(v, b) == LET v1 == Reserve(v, 1) IN [len |-> v.len + 1, raw |-> [v1.raw EXCEPT ![v.len + 1] = b]]
-Pop(v)     == [len |-> v.len - 1, raw |-> [v.raw EXCEPT ![v.len] = 0]]
+Pop(v)     == [len |-> v.len - 1, raw |-> IF PopClears THEN [v.raw EXCEPT ![v.len] = 0] ELSE v.raw]
 
 \* y is read through get_int: the operand's own bits, zero beyond its length
 BitF(op, a, b) == CASE op = "and" -> (IF a + b = 2 THEN 1 ELSE 0) [] op = "or" -> (IF a + b >= 1 THEN 1 ELSE 0) [] op = "xor" -> (a + b) % 2
@@ -101,6 +104,49 @@ NotOp(v) ==
       r1  == [i \in 1..Len(v.raw) |-> IF (i - 1) \div W < vis THEN 1 - v.raw[i] ELSE v.raw[i]]
       r2  == IF Dyn THEN MaskAtLen(r1, v.len) ELSE Mod2n(r1, v.len)
   IN [v EXCEPT !.raw = r2]
+
+\* <<= k and >>= k.  The chunk loops of impl_shifts write positions below len only (<<=), or clear
+\* up to the end of the word that holds the last bit (>>=); nothing else is touched.
+ShlAssign(v, k) ==
+  [v EXCEPT !.raw = [i \in 1..Len(v.raw) |-> IF i > v.len THEN v.raw[i] ELSE IF i - k >= 1 THEN v.raw[i - k] ELSE 0]]
+ShrAssign(v, k) ==
+  LET wend == W * Words(v.len) IN          \* end of the last used word
+  [v EXCEPT !.raw = [i \in 1..Len(v.raw) |->
+     IF k = 0 THEN v.raw[i]
+     ELSE IF i + k <= v.len THEN v.raw[i + k]
+     ELSE IF i <= wend THEN 0 ELSE v.raw[i]]]
+
+\* shl_in / shr_in: whole words are shifted with a carry; only the partial last word is masked
+ShlInOp(v, b) ==
+  LET full == (v.len \div W) * W            \* bits in whole words
+      r1 == [i \in 1..Len(v.raw) |->
+               IF i <= full THEN (IF i = 1 THEN b ELSE v.raw[i - 1])
+               ELSE IF (i - 1) \div W = v.len \div W /\ v.len % W # 0
+                    THEN (IF (i - 1) % W >= v.len % W /\ ShlInMasks THEN 0    \* & mask(len % W)
+                          ELSE IF i = 1 THEN b ELSE v.raw[i - 1])
+               ELSE v.raw[i]]
+  IN [v EXCEPT !.raw = r1]
+ShrInOp(v, b) ==
+  LET full == (v.len \div W) * W
+      part == v.len % W
+      r1 == [i \in 1..Len(v.raw) |->
+               IF part # 0 /\ (i - 1) \div W = v.len \div W
+               THEN \* (data >> 1) | (carry << (part - 1)): the bit above the top comes from the padding
+                    (IF (i - 1) % W = part - 1 THEN (IF At(v.raw, i + 1) = 1 \/ b = 1 THEN 1 ELSE 0)
+                     ELSE IF (i - 1) % W = W - 1 THEN 0 ELSE At(v.raw, i + 1))
+               ELSE IF i <= full
+               THEN (IF i = full /\ part = 0 THEN b ELSE At(v.raw, i + 1))
+               ELSE v.raw[i]]
+  IN [v EXCEPT !.raw = r1]
+
+\* copy_range(s..e): a NEW vector; whole words are copied from the source (reading beyond e inside
+\* the last word), then the word holding the last bit is masked
+CopyRangeOp(v, st, e) ==
+  LET n  == e - st
+      nw == IF Dyn THEN Words(n) ELSE NW
+      r0 == [i \in 1..(W * nw) |-> IF i <= W * Words(n) THEN At(v.raw, st + i) ELSE 0]
+      r1 == IF n % W = 0 \/ ~CopyRangeMasks THEN r0 ELSE MaskWord(r0, n \div W, n % W)
+  IN [len |-> n, raw |-> r1]
 
 \* read(stream, n): from_bytes stores WHOLE "bytes" (here: units of BYT bits), then the surplus is masked
 BYT == IF W % 2 = 0 THEN 2 ELSE 1     \* "byte" size of the model: must divide W, as 8 divides every real word size
@@ -159,6 +205,11 @@ SNext ==
   \/ \E op \in {"add", "sub"}, y \in Operands :
        Step(AddSubAssign(s, op, y), IF op = "add" THEN Add(Abs(s), y) ELSE Sub(Abs(s), y))
   \/ Step(NotOp(s), Not(Abs(s)))
+  \/ \E k \in 0..(Cap + 1) : Step(ShlAssign(s, k), Shl(Abs(s), k))
+  \/ \E k \in 0..(Cap + 1) : Step(ShrAssign(s, k), Shr(Abs(s), k))
+  \/ \E b \in {0, 1} : Step(ShlInOp(s, b), ShlIn(Abs(s), b).v)
+  \/ \E b \in {0, 1} : Step(ShrInOp(s, b), ShrIn(Abs(s), b).v)
+  \/ \E st \in 0..s.len : \E e \in st..s.len : Step(CopyRangeOp(s, st, e), CopyRange(Abs(s), st, e))
   \/ \E k \in 0..Cap : Dyn /\ s.len + k <= Cap /\ Step(Reserve(s, k), Abs(s))
   \/ Dyn /\ Step(ShrinkToFit(s), Abs(s))
   \/ \E n \in 0..Cap, bits \in {Ones(Cap + BYT), [i \in 1..(Cap + BYT) |-> i % 2]} :
